@@ -88,6 +88,10 @@ def path_cases(tier, rng):
     for d in (0, 1):
         for h in corpus:
             yield hist_case(d, True, h, src="corpus")
+    # node ids that contain the '_' of the occurrence names "node_time" (1 -> "a", 2 -> "a_1": "a"@1 reads like node 2)
+    for d in (0, 1):
+        for h in ([A(2, 3, 1), A(3, 5, 2)], [A(1, 3, 1), A(1, 2, 1), A(2, 5, 2), A(3, 4, 2)], [A(1, 2, 1), A(2, 8, 2), A(8, 5, 3)]):
+            yield hist_case(d, True, h, ids="ustr", src="corpus-underscore")
     # exhaustive: <=3 nodes, <=3 instants (each pair x instant present or not) -- thorough only in full
     import itertools as it
     slots = [(u, v, t) for (u, v) in [(1, 2), (2, 3), (1, 3)] for t in (0, 1, 2)]
@@ -109,7 +113,7 @@ def path_cases(tier, rng):
         sh = rng.choice([0, 0, 0, 8, 97, -3, -11])      # ids whose decimal strings have mixed lengths / signs
         if sh:
             ops = [[o[0], o[1], o[2], o[3] + sh, None if o[4] is None else o[4] + sh] for o in ops]
-        yield hist_case(d, True, ops, ids="str" if i % 5 == 0 else "int", src="rand")
+        yield hist_case(d, True, ops, ids=("str", "ustr", "int", "int", "int")[i % 5], src="rand")
 
 
 def queries(case, rng):
